@@ -909,6 +909,7 @@ def run(ctx):
         "duration texts, bindings the library's constructor did not build faithfully. Cases are distinct by construction."
     )
     ctx.assumptions = [
+        "timestamps are built by the library's own constructors from RFC 3339 text or integer fields and carry UTC or a fixed whole-minute offset; host-supplied datetimes carrying other tzinfo objects (ZoneInfo zones at DST folds, offsets with seconds) are not explored",
         "IANA offsets are trusted data read through stdlib zoneinfo from " + " and ".join(sources) + "; pairs on which the sources disagree are dropped",
         "IANA zones only for instants in 1971..2025; no leap seconds",
         "instants, durations and offsets outside the alphabets are not explored",
